@@ -66,7 +66,55 @@ def norm_frame(j, cls="NestedFrame"):
     return {"ok": {"index": f["index"], "cols": cols, "cls": cls}}
 
 
-def mk_nf(ctx, s: Subject, labels=None, with_other=True, nest_name=IDENT_NEST, base_nan=False):
+def prehistory(ctx, nf, s: Subject, nest_name, labels):
+    """An in-place history on the frame's own nested array BEFORE the operation under test:
+    (1) every observer a later operation may have memoised is read (also through a query / dropna
+    / sort that return new frames), (2) one or two rows are replaced in place by tables of another
+    size.  The subject continues with the resulting storage and content; the operation under test
+    must behave as on a frame built afresh from that content (C16) — and as its property says."""
+    from .ops_array import df_of_row
+    rng = ctx.rng
+    arr = nf[nest_name].array
+    n = len(arr)
+    if n == 0:
+        return
+    qn = q(nest_name)
+    f0 = s.ty[0][0]
+    readers = [lambda: arr.list_lengths, lambda: arr.flat_length, lambda: arr.list_offsets, lambda: arr.get_list_index(),
+               lambda: arr.isna(), lambda: nf.nested_columns, lambda: nf.all_columns,
+               lambda: nf[nest_name].nest.to_flat(), lambda: nf[nest_name].nest.to_lists(),
+               lambda: nf.query("id > -1"), lambda: nf.dropna(on_nested=nest_name),
+               lambda: nf.sort_values(f"{qn}.{q(f0)}"), lambda: nf.reduce(lambda x: {"k": 0}, f"{qn}.{q(f0)}")]
+    for r in rng.sample(readers, rng.randint(3, len(readers))):
+        try:
+            r()
+        except Exception:   # the reader itself is judged elsewhere
+            pass
+    rows = [r for r in s.content["rows"]]
+    uniq = len(set(map(str, labels))) == len(labels)
+    steps = []
+    for _ in range(rng.randint(1, 2)):
+        i = rng.randrange(n)
+        new_row = gen.rand_row(rng, s.ty, p_missing=0.15, p_empty=0.15, maxlen=4)
+        how = rng.choice(["array", "at"]) if (uniq and new_row is not None) else "array"
+        val = df_of_row(new_row, s.ty)
+        try:
+            if how == "at":
+                nf.at[nf.index[i], nest_name] = val
+            else:
+                arr[i] = val
+        except Exception as e:
+            ctx.case("prehistory.setitem", {**s.desc(), "pos": i, "row": new_row, "how": how},
+                     {"err": type(e).__name__, "msg": str(e)[:120]}, None, {"ok": True}, hyp=s.hyp)
+            return
+        rows[i] = new_row
+        steps.append([i, how])
+    s.adopt(ctx, nf[nest_name].array, rows)
+    ctx.case("prehistory.setitem", {**s.desc(), "steps": steps}, {"ok": weak_rows(s.abs_rows)}, None,
+             {"ok": weak_rows(rows)}, hyp=s.hyp, features=s.features, nontrivial=True)
+
+
+def mk_nf(ctx, s: Subject, labels=None, with_other=True, nest_name=IDENT_NEST, base_nan=False, history=None):
     rng = ctx.rng
     n = len(s.content["rows"])
     index = None
@@ -88,6 +136,8 @@ def mk_nf(ctx, s: Subject, labels=None, with_other=True, nest_name=IDENT_NEST, b
     if with_other:
         other = Subject(ctx, nrows=n, allow_hidden=False)
         nf["other"] = pd.Series(other.fresh_ext(), index=nf.index, name="other")
+    if history if history is not None else (rng.random() < 0.25):
+        prehistory(ctx, nf, s, nest_name, labels)
     return nf, labels, other
 
 
